@@ -398,6 +398,7 @@ pub struct World {
     /// request it knows (an internal request sent without a session): the per-step exemption
     /// bound is not evaluated for them
     unattributed: BTreeSet<SocketAddr>,
+    capacity: usize,
 }
 
 fn mk_enr(key: &CombinedKey, seq: u64, sock: Option<SocketAddr>) -> Enr {
@@ -429,8 +430,16 @@ impl World {
         let mut peers = vec![];
         for i in 0..npeers {
             let key = CombinedKey::generate_secp256k1();
-            let addr: SocketAddr = format!("10.2.0.{}:{}", i + 1, 9000 + i).parse().unwrap();
-            let wrong: SocketAddr = format!("10.9.9.{}:{}", i + 1, 9100 + i).parse().unwrap();
+            let v6 = i + 1 == npeers && rng.chance(1, 2);
+            let addr: SocketAddr = if v6 { format!("[2001:db8::{}]:{}", i + 1, 9000 + i).parse().unwrap() } else { format!("10.2.0.{}:{}", i + 1, 9000 + i).parse().unwrap() };
+            // the address a stale/false record advertises: another host, or the same host with another port
+            let wrong: SocketAddr = if rng.chance(1, 2) {
+                SocketAddr::new(addr.ip(), addr.port() + 100)
+            } else if v6 {
+                format!("[2001:db8:9::{}]:{}", i + 1, 9100 + i).parse().unwrap()
+            } else {
+                format!("10.9.9.{}:{}", i + 1, 9100 + i).parse().unwrap()
+            };
             let e0 = mk_enr(&key, 1, Some(addr));
             let mut enrs = match rng.below(4) {
                 0 => vec![e0, mk_enr(&key, 2, None), mk_enr(&key, 5, Some(addr))],
@@ -477,6 +486,7 @@ impl World {
             hist: Hist::default(),
             retries,
             unattributed: BTreeSet::new(),
+            capacity: usize::MAX,
         }
     }
 
@@ -584,6 +594,39 @@ impl World {
     }
 }
 
+/// Appends `k` bytes to the auth-data of a datagram (in the unmasked domain) and adjusts the
+/// auth-data size field; the body is kept. `dst` is the id the datagram is masked for.
+fn extend_authdata(datagram: &[u8], dst: &NodeId, k: usize, rng: &mut Rng) -> Option<Vec<u8>> {
+    use aes::cipher::{KeyIvInit, StreamCipher};
+    type Aes128Ctr = ctr::Ctr64BE<aes::Aes128>;
+    if datagram.len() < 16 + 23 {
+        return None;
+    }
+    let iv = &datagram[..16];
+    let key = &dst.raw()[..16];
+    let mut c = Aes128Ctr::new(key.into(), iv.into());
+    let mut hdr = datagram[16..16 + 23].to_vec();
+    c.apply_keystream(&mut hdr);
+    let size = u16::from_be_bytes([hdr[21], hdr[22]]) as usize;
+    if datagram.len() < 16 + 23 + size {
+        return None;
+    }
+    let mut auth = datagram[16 + 23..16 + 23 + size].to_vec();
+    c.apply_keystream(&mut auth);
+    let body = &datagram[16 + 23 + size..];
+    auth.extend_from_slice(&rng.bytes(k));
+    let new_size = (size + k) as u16;
+    hdr[21..23].copy_from_slice(&new_size.to_be_bytes());
+    let mut plain = hdr;
+    plain.extend_from_slice(&auth);
+    let mut c2 = Aes128Ctr::new(key.into(), iv.into());
+    c2.apply_keystream(&mut plain);
+    let mut out = iv.to_vec();
+    out.extend_from_slice(&plain);
+    out.extend_from_slice(body);
+    Some(out)
+}
+
 // ------------------------------------------------------------------------------------------------
 // Moves
 
@@ -602,6 +645,9 @@ pub enum HsVariant {
     OldRecord,
     /// correctly signed, but the attached (newest) record advertises another address
     Unverifiable,
+    /// an honest handshake to whose auth-data bytes were appended in flight (after the record; the
+    /// auth-data size field adjusted): decodes, but the authenticated data no longer match
+    TrailingAuthData,
 }
 
 #[derive(Clone, Debug)]
@@ -666,6 +712,8 @@ impl Runner {
             cb.session_timeout(t);
         }
         let config = cb.build();
+        let mut w = w;
+        w.capacity = capacity;
         let vh = VirtualHandler::spawn(
             Arc::new(RwLock::new(w.local_enr.clone())),
             Arc::new(RwLock::new(CombinedKey::secp256k1_from_bytes(&mut w.local_key.encode()).unwrap())),
@@ -772,7 +820,22 @@ impl Runner {
         // C01: a node is reported as established only under its own identity: the session at
         // this socket was made with the peer that owns it (who proved that identity), so the
         // reported record must be that peer's
+        // C12 (handler part): a session is reported as established only if the UDP address the
+        // record advertises for the family of the observed address is absent or equal to it
         if let HandlerOut::Established(enr, socket, _) = o {
+            let advertised: Option<SocketAddr> = match socket {
+                SocketAddr::V4(_) => enr.udp4_socket().map(SocketAddr::V4),
+                SocketAddr::V6(_) => enr.udp6_socket().map(SocketAddr::V6),
+            };
+            if let Some(a) = advertised {
+                if a != *socket {
+                    let msg = format!("a node was reported as established although its record advertises {} and its packets came from {}", a, socket).chars().map(|c| if c.is_ascii_digit() { '#' } else { c }).collect::<String>();
+                    self.w.fail("C12", msg);
+                }
+            }
+        }
+        if let HandlerOut::Established(enr, socket, discv5::ConnectionDirection::Outgoing) = o {
+            // (outgoing sessions are made with the contact that was dialled at this address)
             if let Some(p) = self.w.peers.iter().find(|p| p.addr == *socket) {
                 if p.id != enr.node_id() {
                     let msg = "a session was reported as established with the record of a node that did not take part in the handshake".to_string();
@@ -918,6 +981,10 @@ impl Runner {
     }
 
     fn monitor_step(&mut self, s: &Step) {
+        // C15: the number of sessions held never exceeds the configured capacity
+        if s.sessions as usize > self.w.capacity {
+            self.w.failures.push(("C15".into(), format!("{} sessions are held although the configured capacity is {}", s.sessions, self.w.capacity)));
+        }
         // C13: an address is exempt only while something is outstanding for it
         for (a, c) in &s.exemptions {
             if self.w.unattributed.iter().any(|x| self.w.it.map.get(&('a', x.to_string().into_bytes())).map(|k| 2 * k + x.is_ipv6() as u64) == Some(*a)) {
@@ -1091,9 +1158,11 @@ impl Runner {
             Some(t) => {
                 self.collect();
                 // C02 / C01 monitors on what this datagram caused
-                let delivered: Vec<&HandlerOut> = self.buffered_outs.iter().filter(|o| matches!(o, HandlerOut::Request(..) | HandlerOut::Response(..) | HandlerOut::Established(..))).collect();
+                // (a handshake extended in flight may still establish the session: the id signature
+                // does not cover the auth-data; what must not happen is the delivery of its message)
+                let delivered: Vec<&HandlerOut> = self.buffered_outs.iter().filter(|o| matches!(o, HandlerOut::Request(..) | HandlerOut::Response(..))).collect();
                 if mutated && !delivered.is_empty() {
-                    self.w.failures.push(("C02".into(), "a tampered datagram led to a delivered message or an established session".into()));
+                    self.w.failures.push(("C02".into(), "a tampered datagram led to a delivered message".into()));
                 }
                 if let Some(victim) = forged_for {
                     let vid = self.w.peers[victim].id;
@@ -1105,6 +1174,13 @@ impl Runner {
                     });
                     if bad {
                         self.w.failures.push(("C01".into(), "a party without the secret key of node X completed a handshake as X".into()));
+                    }
+                    let delivered_as_victim = self.buffered_outs.iter().any(|o| match o {
+                        HandlerOut::Request(na, _) | HandlerOut::Response(na, _) => na.node_id == vid,
+                        _ => false,
+                    });
+                    if delivered_as_victim {
+                        self.w.failures.push(("C02".into(), "a message was delivered as coming from a peer that never completed a handshake with this node".into()));
                     }
                 }
                 // C03: a replayed handshake never creates or re-keys a session (it may still be
@@ -1168,7 +1244,7 @@ impl Runner {
         let pid = self.w.peers[pi].id;
         // who signs / which static key of the local node is used
         let (signer, attach): (usize, Option<Enr>) = match &variant {
-            HsVariant::Honest => (pi, Some(self.w.peers[pi].enrs[2].clone())),
+            HsVariant::Honest | HsVariant::TrailingAuthData => (pi, Some(self.w.peers[pi].enrs[2].clone())),
             HsVariant::OldRecord => (pi, Some(self.w.peers[pi].enrs[0].clone())),
             HsVariant::Unverifiable => (pi, Some(self.w.peers[pi].enrs[3].clone())),
             HsVariant::NoRecord => (pi, None),
@@ -1236,7 +1312,14 @@ impl Runner {
         let t = ACt::Enc(kinit, self.w.it.nonce(&nonce), m, self.w.it.aad(&aad));
         self.w.ct_terms.insert(ct.clone(), t);
         p.message = ct;
-        let bytes = wire_encode(&p, self.w.pid, &local_id);
+        let mut bytes = wire_encode(&p, self.w.pid, &local_id);
+        let mut tampered = false;
+        if matches!(variant, HsVariant::TrailingAuthData) {
+            if let Some(b) = extend_authdata(&bytes, &local_id, 1 + rng.below(6) as usize, rng) {
+                bytes = b;
+                tampered = true;
+            }
+        }
         let src = ch_addr;
         let honest_signer = signer == pi && !ed_signer;
         if honest_signer && !matches!(variant, HsVariant::BadSignature | HsVariant::BadEphemeral | HsVariant::WrongStatic) {
@@ -1257,7 +1340,11 @@ impl Runner {
         }
         // a handshake in the name of an Ed25519 node proves nothing either
         let forged = if honest_signer { None } else { Some(pi) };
-        self.inject(src, bytes, "handshake", signer, false, forged).await;
+        if tampered {
+            // the tampered copy consumes the challenge without establishing anything usable
+            self.w.peers[pi].keys.pop();
+        }
+        self.inject(src, bytes, "handshake", signer, tampered, forged).await;
         if consumed {
             // whatever the outcome, a challenge is consumed by a handshake whose signature check was reached
             let cdc = cd.clone();
@@ -1461,7 +1548,7 @@ pub const HEADER: &str = "From Coq Require Import List NArith.\nImport ListNotat
 
 fn gen_move(rng: &mut Rng, npeers: usize, focus: &str) -> Move {
     let w: &[u64] = match focus {
-        "c01" => &[10, 1, 14, 6, 14, 24, 8, 8, 6, 6, 4, 6],
+        "c01" | "c12" => &[10, 1, 14, 6, 14, 24, 8, 8, 6, 6, 4, 6],
         "c02" => &[10, 1, 10, 6, 8, 12, 10, 10, 4, 8, 26, 5],
         "c03" => &[10, 1, 12, 4, 10, 16, 6, 6, 12, 20, 4, 6],
         "c13" => &[16, 2, 10, 6, 8, 14, 6, 10, 14, 6, 4, 10],
@@ -1478,7 +1565,7 @@ fn gen_move(rng: &mut Rng, npeers: usize, focus: &str) -> Move {
         4 => Move::NetRandom { peer: p },
         5 => {
             let other = (p + 1 + rng.below(npeers.max(2) as u64 - 1) as usize) % npeers.max(1);
-            let variant = match rng.below(if focus == "c01" { 12 } else { 16 }) {
+            let variant = match rng.below(if focus == "c01" || focus == "c12" { 13 } else { 17 }) {
                 0 | 1 => HsVariant::ForgedWithOwnRecord(other),
                 2 => HsVariant::ForgedNoRecord(other),
                 3 => HsVariant::BadSignature,
@@ -1487,6 +1574,7 @@ fn gen_move(rng: &mut Rng, npeers: usize, focus: &str) -> Move {
                 6 => HsVariant::NoRecord,
                 7 => HsVariant::OldRecord,
                 8 | 9 => HsVariant::Unverifiable,
+                10 => HsVariant::TrailingAuthData,
                 _ => HsVariant::Honest,
             };
             Move::NetHandshake { ch: rng.below(8) as usize, variant }
